@@ -162,6 +162,28 @@ theorem error_before_persist_leaves_nothing (d : Dir) (k : Nat) (hk : k ≤ 4) :
   have hk' : k = 0 ∨ k = 1 ∨ k = 2 ∨ k = 3 ∨ k = 4 := by omega
   rcases hk' with rfl | rfl | rfl | rfl | rfl <;> simp [pexec, pstep, protocol, cleanup]
 
+/-- Storing a pack again: whatever is in the directory before — nothing, the pair, the pack WITHOUT its index
+(an earlier attempt died between the two renames), the index without its pack — a complete run of
+`inner_write` ends with both `pack-<hash>.pack` and `pack-<hash>.idx` in place, the pack complete (given that
+a pack under its final name was complete before), no tempfile left; a `.keep` file is written exactly if
+the pack was not there. In particular `Ok` with an `index_path` that was never written is impossible: the
+index is persisted whenever it is missing, independently of the pack. -/
+theorem persist_complete_run_makes_the_pair (d : Dir) (h2 : d.pack = true → d.packComplete = true) :
+    (cleanup (pexec d protocol)).pack = true ∧ (cleanup (pexec d protocol)).idx = true
+    ∧ (cleanup (pexec d protocol)).packComplete = true
+    ∧ (cleanup (pexec d protocol)).tmpPack = false ∧ (cleanup (pexec d protocol)).tmpIdx = false
+    ∧ (cleanup (pexec d protocol)).keep = (d.keep || !d.pack) := by
+  obtain ⟨a, b, c, e, p, pc, i⟩ := d
+  cases a <;> cases b <;> cases c <;> cases e <;> cases p <;> cases pc <;> cases i <;>
+    simp_all [pexec, pstep, protocol, cleanup]
+
+/-- the pack is there without its index (the re-store after a crash between the renames): the index is added,
+the pack is not touched, no `.keep` file -/
+example : cleanup (pexec { tmpPack := false, tmpPackComplete := false, tmpIdx := false, keep := false, pack := true,
+                           packComplete := true, idx := false } protocol)
+    = { tmpPack := false, tmpPackComplete := false, tmpIdx := false, keep := false, pack := true,
+        packComplete := true, idx := true } := by decide
+
 /-- the complete protocol in a fresh directory produces the pair (and the `.keep` file) -/
 example : pexec { tmpPack := false, tmpPackComplete := false, tmpIdx := false, keep := false, pack := false,
                   packComplete := false, idx := false } protocol
